@@ -507,6 +507,10 @@ def _decide(p, q, quats):
         return EQUAL
     # same building blocks on both sides?
     ga, gb = generators(a), generators(b)
+    if any(x.kind == "sign" for y in (a, b) for x in all_atoms(y)):
+        # sign(u) is not an independent generator (sign(u)^2 = 1 off u = 0, sign(u) u = |u|): a differing normal form
+        # does not show a differing value; the callers split on the sign cases (and on u = 0) instead
+        return UNKNOWN
     if ga == gb:
         return DIFFERENT
     if not quats and (_free_trig_ring(a, b) or _radical_trig_ring(a, b)):
